@@ -328,6 +328,7 @@ mod replay {
         conn_order: Vec<usize>,  // model connection index -> client
         hooks: Vec<HSt>,
         waiters: Vec<Arc<AtomicBool>>,
+        w_seen: Vec<bool>,
         caller_threads: Vec<std::thread::JoinHandle<()>>,
     }
 
@@ -432,6 +433,7 @@ mod replay {
                 queues: vec![Vec::new(); p.nl],
                 hooks: (0..p.nh).map(|_| HSt::New).collect(),
                 waiters: Vec::new(),
+                w_seen: vec![false; p.nw],
                 caller_threads: Vec::new(),
                 clients: Vec::new(),
                 conn_order: Vec::new(),
@@ -517,7 +519,7 @@ mod replay {
                 0
             };
             let h = self.hooks.iter().map(|h| X::N(match h { HSt::New => 0, HSt::Reg(_) => 1, HSt::Sig(_) => 2, HSt::Acked => 3 })).collect();
-            let w = self.waiters.iter().map(|w| X::bool(w.load(Ordering::SeqCst))).collect();
+            let w = self.w_seen.iter().map(|w| X::bool(*w)).collect();
             X::L(vec![
                 X::bool(self.flag()),
                 X::z(self.mgr.get_connecions() as i128),
@@ -578,6 +580,11 @@ mod replay {
             let mut cur = if self.lst[i] == LSt::Parked { None } else { self.ctl.peek(role) };
             if self.lst[i] == LSt::Parked {
                 return Err(Fail::Bad);
+            }
+            match cur {
+                Some(("al.top", _)) | Some(("ap.poll", _)) | Some(("ap.checked", _)) => {}
+                Some(("ap.waker", _)) if !self.p.fix_c => {}
+                _ => return Err(Fail::Bad),
             }
             let mut guard = 0;
             loop {
@@ -835,6 +842,10 @@ mod replay {
                 }
                 std::thread::sleep(Duration::from_micros(200));
             }
+            if self.w_seen[w] {
+                return Err(Fail::Bad);
+            }
+            self.w_seen[w] = true;
             Ok(())
         }
         fn env_conn(&mut self, i: usize, step: usize) -> Result<(), Fail> {
@@ -953,7 +964,7 @@ mod replay {
 
     pub fn replay(p: impl Fn() -> Params, sched: &[(u8, usize)]) -> X {
         for _attempt in 0..8 {
-            let mut run = match Run::start(p()) { Some(r) => r, None => continue };
+            let mut run = match Run::start(p()) { Some(r) => r, None => { if std::env::var("KVH_C10_DEBUG").is_ok() { eprintln!("start failed"); } continue } };
             let mut obs = Vec::new();
             let mut fail = None;
             for (n, lb) in sched.iter().enumerate() {
@@ -971,6 +982,7 @@ mod replay {
                     return X::L(vec![X::L(obs), fin]);
                 }
                 Some(Fail::Diverged) => {
+                    if std::env::var("KVH_C10_DEBUG").is_ok() { eprintln!("diverged at {}", obs.len()); }
                     run.abort();
                     continue;
                 }
